@@ -1,4 +1,6 @@
 """C05 — macros and constants are late-bound named values."""
+import copy
+import enum
 import itertools
 import os
 import shutil
@@ -16,6 +18,12 @@ RULE = ('histories of 1-4 parse steps (strings, files, files including files) ho
         'sentinel objects; oracle = macro-table model (last definition in application order wins, evaluated at call time, one provider run per %m '
         'occurrence per call) + suffix model for %q (unique -> the very object, ambiguous -> ValueError at parse and nothing bound, none -> macro) + '
         'gin.constant rejections leave the table unchanged + finalize() rejects unbound / unevaluated macros. '
+        'Extension: multi-letter name components sharing character tails (x.AB / %B, yx.AB / %x.AB: a character tail is not a dotted suffix); '
+        'constants holding lists / dicts / sets / None / strings that look like %m0, and enum members from gin.constants_from_enum; steps through '
+        'parse_config(list) and parse_config_files_and_bindings; includes after statements and nested includes; explicit forms '
+        '(m/gin.macro.value = v, @m/gin.macro(), bind_parameter) mixed with the short form; container-valued macros holding @prov() / %CONST / %m; '
+        'scoped consumer bindings and consumer calls inside gin.config_scope; duplicate definitions in the middle and at the end of a history '
+        '(after clear_config, of late constants, enum decorated twice); redefinition of a macro after finalize() under unlock_config. '
         'distinct = (step kinds, definition/use order pattern, macro value kinds, constant-name suffix structure)')
 TIERS = {
     'quick': {'workers': 8, 'cases': 2000, 'timeout': 600},
@@ -26,10 +34,25 @@ REQUIRED_BUCKETS = ['order:use-before-definition', 'order:definition-before-use'
                     'call:between-steps', 'call:unbound-macro-raises', 'const:unique-suffix', 'const:full-name', 'const:ambiguous', 'const:none-falls-to-macro',
                     'const:identity-in-container', 'const:invalid-name', 'const:duplicate', 'finalize:ok', 'finalize:unbound', 'finalize:unevaluated',
                     'macro:used-twice-in-one-value', 'const:defined-between-parses', 'const:name-became-constant-after-use-as-macro', 'finalize:unbound-with-bound-prefix-macro', 'finalize:after-failed-query-of-unbound-macro', 'finalize:unbound-macro-in-dict-key', 'step:skip_unknown-enabled',
-                    'history:clear_config-keeps-constants']
+                    'history:clear_config-keeps-constants',
+                    # extension wave (audit gaps 1-7)
+                    'const:char-tail-is-not-a-suffix', 'finalize:macro-redefined-after-finalize', 'step:files_and_bindings', 'step:list',
+                    'order:redefinition-files-then-bindings', 'const:from-enum', 'const:enum-member-delivered', 'const:list-valued', 'const:dict-valued',
+                    'const:set-valued', 'const:none-valued', 'const:str-valued', 'const:container-valued-delivered', 'const:duplicate-after-clear_config',
+                    'const:duplicate-of-late-constant', 'const:duplicate-enum-redecorated', 'const:duplicate-mid-history', 'call:inside-config_scope',
+                    'call:scoped-binding-effective', 'macro:explicit-binding-form', 'macro:explicit-reference-form', 'macro:bound-via-bind_parameter',
+                    'macro:container-holding-references', 'step:include-after-statements', 'step:nested-include', 'const:ambiguous-query_parameter']
 ORACLE_COUNTERS = ['oracle_evals', 'consumer_calls', 'constant_lookups', 'finalize_checks']
 _S = {}
-MACROS = ['m0', 'm1', 'a/m2', 'a/b/m3', 'M0', 'a', 'a/b', 'LATEK', 'a/A', 'x/y/B']   # the last two end in a component that may name a constant: still macros
+# 'a/A', 'x/y/B', 'yx/CAB' end in a component that may name a constant: still macros; 'B' and 'AB' are character tails of the constant leaves
+# 'AB' / 'CAB' (macros unless a constant has them as a *dotted* suffix)
+MACROS = ['m0', 'm1', 'a/m2', 'a/b/m3', 'M0', 'a', 'a/b', 'LATEK', 'a/A', 'x/y/B', 'B', 'AB', 'yx/CAB']
+ALPHA = ['AB', 'B', 'CAB', 'A']          # leaves sharing character tails
+COMPS = ['x', 'yx', 'z']                 # module components sharing a character tail
+CONST_KINDS = ['sentinel'] * 5 + ['list', 'dict', 'set', 'none', 'str']
+# [class name, module argument of constants_from_enum (None -> the class's __module__ = 'c5enums'), member names]
+ENUM_SPECS = [['Color', 'pk', ['RED', 'AB']], ['Color', 'qk', ['RED']], ['Shade', None, ['RED', 'B']], ['Color', None, ['GREEN', 'CAB']]]
+ENUM_MODULE = 'c5enums'
 
 
 class Sentinel:
@@ -46,7 +69,9 @@ def setup(ctx):
   _S['by_pid'] = c04._S['by_pid']
   _S['cons'] = probes.build({'shape': 'fn', 'api': 'configurable', 'name': 'c5cons', 'module': 'c5', 'pos': [], 'dflt': [['p', None], ['q', None]],
                              'varargs': False, 'kwonly': [], 'varkw': False})
-  _S['tmp'] = tempfile.mkdtemp(prefix='vf-c5-')
+  # config files live in memory when possible: creating several thousand small files on disk dominated the run time
+  shm = '/dev/shm'
+  _S['tmp'] = tempfile.mkdtemp(prefix='vf-c5-', dir=shm if os.path.isdir(shm) and os.access(shm, os.W_OK) else None)
   _S['fileno'] = itertools.count()
 
 
@@ -54,29 +79,39 @@ def finish(ctx):
   shutil.rmtree(_S['tmp'], ignore_errors=True)
 
 
-# macro value: ['lit', v] | ['prov', name, scoped] | ['macro', other]
-# consumer tree: nested lists of ['use', macro] | ['lit', v] | ['const', spelling] | ['list', [...]] | ['dict', [...]]
-def gen_tree(rng, depth, macro_pool, const_spellings):
+# macro value: ['lit', v] | ['prov', name, scoped] | ['macro', other] | ['tree', container tree]
+# value tree: nested lists of ['use', macro] (%m) | ['xuse', macro] (@m/gin.macro()) | ['lit', v] | ['const', spelling] | ['list', [...]] | ['dict', [...]]
+#             and, inside macro values only, ['prov', name, scoped]
+def gen_tree(rng, depth, macro_pool, const_spellings, tails=(), provs=False):
   r = rng.random()
   if depth <= 0 or r < 0.5:
     k = rng.random()
-    if k < 0.6:
-      return ['use', rng.choice(macro_pool)]
+    if k < 0.6 and macro_pool:
+      m = rng.choice(macro_pool)
+      return ['xuse', m] if rng.random() < 0.12 else ['use', m]
     if k < 0.8 and const_spellings:
+      if tails and rng.random() < 0.2:
+        return ['const', rng.choice(tails)]
       return ['const', rng.choice(const_spellings)]
+    if provs and k < 0.92:
+      return ['prov', 'prov%d' % rng.randrange(2), rng.random() < 0.3]
     return ['lit', rng.choice([1, 'x', None, [1]])]
   n = rng.choice([1, 2, 3])
   if r < 0.85:
-    return ['list', [gen_tree(rng, depth - 1, macro_pool, const_spellings) for _ in range(n)]]
-  return ['dict', [['k%d' % i, gen_tree(rng, depth - 1, macro_pool, const_spellings)] for i in range(n)]]
+    return ['list', [gen_tree(rng, depth - 1, macro_pool, const_spellings, tails, provs) for _ in range(n)]]
+  return ['dict', [['k%d' % i, gen_tree(rng, depth - 1, macro_pool, const_spellings, tails, provs)] for i in range(n)]]
 
 
 def tree_text(t):
   k = t[0]
   if k == 'use':
     return '%' + t[1]
+  if k == 'xuse':
+    return '@' + t[1] + '/gin.macro()'
   if k == 'const':
     return '%' + t[1]
+  if k == 'prov':
+    return '@' + ('ps/' if t[2] else '') + t[1] + '()'
   if k == 'lit':
     return repr(t[1])
   if k == 'list':
@@ -89,11 +124,21 @@ def mval_text(v):
     return repr(v[1])
   if v[0] == 'prov':
     return '@' + ('ps/' if v[2] else '') + v[1] + '()'
+  if v[0] == 'tree':
+    return tree_text(v[1])
   return '%' + v[1]
 
 
+def stmt_text(st):
+  if st[0] == 'def':
+    form = st[3] if len(st) > 3 else 'short'
+    return '%s%s = %s' % (st[1], '/gin.macro.value' if form == 'explicit' else '', mval_text(st[2]))
+  scope = st[3] if len(st) > 3 else ''
+  return '%sc5cons.%s = %s' % (scope + '/' if scope else '', st[1], tree_text(st[2]))
+
+
 def uses(t, out):
-  if t[0] == 'use':
+  if t[0] in ('use', 'xuse'):
     out.append(t[1])
   elif t[0] == 'list':
     for x in t[1]:
@@ -104,12 +149,21 @@ def uses(t, out):
   return out
 
 
+def has_node(t, kinds):
+  if t[0] in kinds:
+    return True
+  if t[0] == 'list':
+    return any(has_node(x, kinds) for x in t[1])
+  if t[0] == 'dict':
+    return any(has_node(x, kinds) for _, x in t[1])
+  return False
+
+
 def gen_constants(rng):
-  alpha = ['A', 'B', 'C']
   names = set()
   for _ in range(rng.choice([0, 1, 2, 3, 5])):
     d = rng.choice([1, 2, 3, 4])
-    names.add('.'.join(rng.choice(['x', 'y', 'z']) for _ in range(d - 1)) + ('.' if d > 1 else '') + rng.choice(alpha))
+    names.add('.'.join([rng.choice(COMPS) for _ in range(d - 1)] + [rng.choice(ALPHA)]))
   if names and rng.random() < 0.6:
     n = rng.choice(sorted(names))
     names.add('w.' + n)
@@ -117,43 +171,71 @@ def gen_constants(rng):
   return sorted(names, key=lambda s: (s.count('.'), s))
 
 
+def enum_names(spec):
+  _, clsname, module, members = spec
+  return ['%s.%s.%s' % (module or ENUM_MODULE, clsname, m) for m in members]
+
+
 def iter_cases(ctx, rng, n):
   for i in range(n):
     consts = gen_constants(rng)
+    kinds = {c: rng.choice(CONST_KINDS) for c in consts}
+    nsteps = rng.choice([1, 2, 3, 4])
+    enums = [[rng.choice([0, 0, 0, 0, 1])] + copy.deepcopy(sp) for sp in rng.sample(ENUM_SPECS, rng.choice([0, 0, 1, 1, 2]))]
     spell = set()
-    for c in consts:
+    for c in consts + [nm for e in enums for nm in enum_names(e)]:
       parts = c.split('.')
       for j in range(len(parts)):
         spell.add('.'.join(parts[j:]))
+    # character tails of the spellings that are not spellings themselves: `%B` next to a constant x.AB, `%x.AB` next to yx.AB -> macros
+    tails = set()
+    for s in spell:
+      for j in (1, 2):
+        t = s[j:]
+        if t and t[0] != '.' and not t[0].isdigit() and t not in spell:
+          tails.add(t)
     spell = sorted(spell)
+    tails = sorted(tails)
     pool = rng.sample(MACROS, rng.choice([1, 2, 3]))
     steps = []
-    for _ in range(rng.choice([1, 2, 3, 4])):
+    for _ in range(nsteps):
       stmts = []
       for _ in range(rng.choice([1, 2, 3, 4])):
         k = rng.random()
         if k < 0.5:
           m = rng.choice(pool)
+          others = [x for x in pool if x != m]
           vk = rng.random()
-          if vk < 0.45:
+          if vk < 0.4:
             v = ['lit', rng.choice([1, 'two', [3, [4]], {'k': 5}, None])]
-          elif vk < 0.8:
+          elif vk < 0.7:
             v = ['prov', 'prov%d' % rng.randrange(2), rng.random() < 0.3]
-          else:
-            others = [x for x in pool if x != m]
+          elif vk < 0.85:
             v = ['macro', rng.choice(others)] if others else ['lit', 0]
-          stmts.append(['def', m, v])
+          else:
+            items = [gen_tree(rng, rng.choice([0, 0, 1]), others, spell, tails, provs=True) for _ in range(rng.choice([1, 2, 3]))]
+            v = ['tree', ['list', items] if rng.random() < 0.7 else ['dict', [['k%d' % j, it] for j, it in enumerate(items)]]]
+          stmts.append(['def', m, v, 'explicit' if rng.random() < 0.2 else 'short'])
         else:
-          stmts.append(['bind', rng.choice(['p', 'q']), gen_tree(rng, rng.choice([0, 1, 2]), pool, spell)])
-      kind = rng.choice(['string', 'string', 'file', 'include'])
-      steps.append({'kind': kind, 'stmts': stmts, 'split': rng.randrange(0, len(stmts) + 1), 'call': rng.random() < 0.7,
+          stmts.append(['bind', rng.choice(['p', 'q']), gen_tree(rng, rng.choice([0, 1, 2]), pool, spell, tails), rng.choice(['', '', '', '', 's', 's/t'])])
+      kind = rng.choice(['string', 'string', 'file', 'include', 'include', 'fab', 'list'])
+      cuts = sorted(rng.randrange(0, len(stmts) + 1) for _ in range(4))
+      if rng.random() < 0.35:
+        cuts[0] = 0
+      steps.append({'kind': kind, 'stmts': stmts, 'split': cuts[3], 'cuts': cuts, 'nested': rng.random() < 0.5, 'call': rng.random() < 0.7,
+                    'ambient': rng.choice([None, None, None, 's', 's/t', 't']), 'as_tuple': rng.random() < 0.3,
                     'skip_unknown': rng.choice([False, False, True, ['some_unknown_name']]), 'clear_before': rng.random() < 0.12})
     late = []
     for si in range(1, len(steps)):
       if rng.random() < 0.5:
-        cands = ['q.LATEK'] + ['w2.' + c for c in consts]
-        late.append([si, rng.choice(cands)])
-    yield {'consts': consts, 'late_consts': late, 'steps': steps, 'finalize': rng.random() < 0.6, 'unevaluated': rng.random() < 0.15,
+        cands = ['q.LATEK'] + ['w2.' + c for c in consts] + [c.split('.')[-1][1:] for c in consts if len(c.split('.')[-1]) > 1]
+        late.append([si, rng.choice(cands), rng.choice(CONST_KINDS)])
+    api_defs = [[si, rng.choice(pool), rng.choice([7, 'api', [8, {'k': [9]}], None])] for si in range(len(steps)) if rng.random() < 0.2]
+    dup_probes = [[si, rng.random()] for si in range(1, len(steps) + 1) if rng.random() < 0.4]
+    post = rng.choice([None, {'v': ['lit', 'post-finalize'], 'form': 'short'}, {'v': ['lit', 9], 'form': 'explicit'}, {'v': ['lit', [9, 'api']], 'form': 'api'},
+                       {'v': ['prov', 'prov1', False], 'form': 'short'}])
+    yield {'consts': consts, 'const_kinds': kinds, 'enums': enums, 'late_consts': late, 'api_defs': api_defs, 'dup_probes': dup_probes, 'post_finalize': post,
+           'steps': steps, 'finalize': rng.random() < 0.6, 'unevaluated': rng.random() < 0.15,
            'bad_const': rng.choice([None, 'invalid', 'duplicate']), 'ambiguous_probe': rng.random() < 0.5, 'query_unbound_first': rng.random() < 0.5,
            'keymacro': rng.choice([None, None, None, None, None, '{%c5_never_bound: 1}', '{(1, %c5_never_bound): [2]}', "{'k': {%c5_never_bound: 0}}", '{@c5_never_bound/gin.macro: 1}'])}
 
@@ -170,42 +252,62 @@ def freeze(t, consts):
     return ['list', [freeze(x, consts) for x in t[1]]]
   if k == 'dict':
     return ['dict', [[a, freeze(b, consts)] for a, b in t[1]]]
-  return t
+  return t   # 'lit', 'prov', 'xuse' (@m/gin.macro() names the macro whatever the constants are), 'constr'
+
+
+def macro_refs(v):
+  """Macros a (frozen) macro value refers to."""
+  if v[0] == 'macro':
+    return [v[1]]
+  if v[0] == 'tree':
+    return uses(v[1], [])
+  return []
 
 
 def has_cycle(table):
-  for start in table:
-    seen, cur = set(), start
-    while cur in table and table[cur][0] == 'macro':
-      if cur in seen:
+  state = {}
+
+  def visit(m):
+    if state.get(m) == 1:
+      return True
+    if state.get(m) == 2 or m not in table:
+      return False
+    state[m] = 1
+    for r in macro_refs(table[m]):
+      if visit(r):
         return True
-      seen.add(cur)
-      cur = table[cur][1]
-  return False
+    state[m] = 2
+    return False
+  return any(visit(m) for m in list(table))
 
 
-def model_value(t, table, consts, sentinels, calls, depth=0):
-  """Expected shape of what the consumer receives for tree t; ('UNBOUND',) marks a use of an unbound macro."""
+def model_value(t, table, consts, sentinels, calls, depth=0, pscope=()):
+  """Expected shape of what the consumer receives for tree t; KeyError marks a use of an unbound macro.
+
+  pscope = the scope under which an unscoped reference standing in this tree is evaluated (the macro's own name for a macro value)."""
   k = t[0]
   if k == 'lit':
     return c04.lit_shape(t[1])
-  if k == 'use':
-    return model_macro(t[1], table, calls, depth)
+  if k in ('use', 'xuse'):
+    return model_macro(t[1], table, consts, sentinels, calls, depth)
   if k == 'constr':
     return ('const', t[1])
   if k == 'const':
     r = models.resolve_suffix(consts, t[1])
     return ('const', r[0])
+  if k == 'prov':
+    calls.append((t[1], ('ps',) if t[2] else tuple(pscope)))
+    return ('prov', t[1])
   if k == 'list':
-    return ('list', tuple(model_value(x, table, consts, sentinels, calls, depth) for x in t[1]))
-  return ('dict', tuple((c04.lit_shape(a), model_value(b, table, consts, sentinels, calls, depth)) for a, b in t[1]))
+    return ('list', tuple(model_value(x, table, consts, sentinels, calls, depth, pscope) for x in t[1]))
+  return ('dict', tuple((c04.lit_shape(a), model_value(b, table, consts, sentinels, calls, depth, pscope)) for a, b in t[1]))
 
 
 class Grey(Exception):
   pass
 
 
-def model_macro(m, table, calls, depth):
+def model_macro(m, table, consts, sentinels, calls, depth):
   if m not in table and any(m.startswith(t + '/') for t in table):
     # the macro's name is the scope of gin.macro: an unbound `a/b` evaluated while `a` is bound inherits a's value through scope
     # layering. The statement says nothing about it (only finalize must reject the unbound name) -> not constrained.
@@ -221,7 +323,9 @@ def model_macro(m, table, calls, depth):
     scope = ('ps',) if v[2] else tuple(m.split('/'))
     calls.append((v[1], scope))
     return ('prov', v[1])
-  return model_macro(v[1], table, calls, depth + 1)
+  if v[0] == 'tree':
+    return model_value(v[1], table, consts, sentinels, calls, depth + 1, tuple(m.split('/')))
+  return model_macro(v[1], table, consts, sentinels, calls, depth + 1)
 
 
 def shape(v, sentinels):
@@ -236,6 +340,67 @@ def shape(v, sentinels):
   return ('lit', canon(v))
 
 
+def make_const_value(name, kind):
+  """The object a constant stands for. Containers and strings are built at run time so that no other object can be `is`-identical by accident."""
+  if kind == 'list':
+    return [1, Sentinel(name + '#item')]
+  if kind == 'dict':
+    return {'k': [2], 'name': name}
+  if kind == 'set':
+    return {3, name}
+  if kind == 'none':
+    return None
+  if kind == 'str':
+    return ''.join(['%', 'm0'])      # looks like a macro use; it is a value
+  return Sentinel(name)
+
+
+def compare(exp, got, sentinels, problems, stats, top=True):
+  """Parallel walk of the model's shape and the delivered value; a constant must be the very object (is), also inside containers."""
+  k = exp[0]
+  if k == 'const':
+    obj = sentinels[exp[1]]
+    stats.append((exp[1], top))
+    if got is obj:
+      return
+    try:
+      look_alike = type(got) is type(obj) and (got.name == obj.name if isinstance(obj, Sentinel) else bool(got == obj))
+    except Exception:  # pylint: disable=broad-except
+      look_alike = False
+    problems.append(('constant-not-identical' if look_alike else 'macro-value-differs-from-table',
+                     'constant %s: expected the very object %r, received %r' % (exp[1], obj, got)))
+    return
+  if k in ('list', 'tuple'):
+    if type(got).__name__ != k or len(got) != len(exp[1]):
+      problems.append(('macro-value-differs-from-table', 'expected %r, received %r' % (exp, shape(got, sentinels))))
+      return
+    for e, g in zip(exp[1], got):
+      compare(e, g, sentinels, problems, stats, False)
+    return
+  if k == 'dict':
+    if type(got) is not dict or [shape(a, sentinels) for a in got] != [a for a, _ in exp[1]]:
+      problems.append(('macro-value-differs-from-table', 'expected %r, received %r' % (exp, shape(got, sentinels))))
+      return
+    for (_, e), g in zip(exp[1], got.values()):
+      compare(e, g, sentinels, problems, stats, False)
+    return
+  if shape(got, sentinels) != exp:
+    problems.append(('macro-value-differs-from-table', 'expected %r, received %r' % (exp, shape(got, sentinels))))
+
+
+def effective_store(store, ambient):
+  """Consumer bindings in force inside config_scope(ambient): the unscoped ones overlaid by those of every prefix of the active scope."""
+  comps = ambient.split('/') if ambient else []
+  out, scoped = {}, False
+  for i in range(len(comps) + 1):
+    sc = '/'.join(comps[:i])
+    for (s, prm), t in store.items():
+      if s == sc:
+        out[prm] = t
+        scoped = scoped or bool(s)
+  return out, scoped
+
+
 def run_case(ctx, case):
   import gin
   from gin import config as gc
@@ -243,36 +408,115 @@ def run_case(ctx, case):
   cons = _S['cons']
   # ---- constants
   sentinels = {}
+  kinds = dict(case.get('const_kinds') or {})
   for c in case['consts']:
-    sentinels[c] = Sentinel(c)
+    sentinels[c] = make_const_value(c, kinds.get(c, 'sentinel'))
     gin.constant(c, sentinels[c])
+    if kinds.get(c, 'sentinel') != 'sentinel':
+      ctx.bucket('const:%s-valued' % kinds[c])
   consts = set(case['consts'])
+  enum_classes = []
+  late_names = set()
+
+  def fresh_name(name):
+    # not a duplicate and not a dotted suffix of an existing constant (the latter is unspecified, DESIGN X)
+    return name not in consts and not any(c.endswith('.' + name) for c in consts)
+
+  def define_enums(at):
+    for spec in case.get('enums', []):
+      if spec[0] != at:
+        continue
+      _, clsname, module, members = spec
+      names = enum_names(spec)
+      if not all(fresh_name(nm) for nm in names):
+        continue
+      cls = enum.Enum(clsname, list(members), module=ENUM_MODULE)
+      if module is None:
+        gin.constants_from_enum(cls)
+      else:
+        gin.constants_from_enum(module=module)(cls)
+      for mname, nm in zip(members, names):
+        sentinels[nm] = cls[mname]       # the enum member itself is the constant's value
+        kinds[nm] = 'enum'
+        consts.add(nm)
+        if at:
+          late_names.add(nm)
+      enum_classes.append((cls, module))
+      ctx.bucket('const:from-enum')
+  define_enums(0)
+
   def table_snapshot():
     return {n: gin.query_parameter(n) for n in consts}
-  if case['bad_const']:
+
+  def rejected(what, fn, key, accept=ValueError):
+    """fn() must raise; the constant table must be what it was."""
     before = table_snapshot()
     nconst = len(gc._CONSTANTS)
+    try:
+      fn()
+      ctx.check(False, key, '%s accepted' % what)
+    except accept:
+      ctx.count('oracle_evals')
+    after = table_snapshot()
+    ctx.check(len(gc._CONSTANTS) == nconst and all(after[n] is before[n] for n in before),
+              'rejected-constant-changed-table', 'rejected %s changed the constant table' % what)
+
+  if case['bad_const']:
     if case['bad_const'] == 'invalid':
       ctx.bucket('const:invalid-name')
       bads = ['a..B', '1x.B', 'a b', '', 'a.', '.a', 'a/b', 'a-b', 'A\n', 'x.A\n', '\nA', 'A\r']
     else:
       ctx.bucket('const:duplicate')
-      bads = list(case['consts'][:2]) or ['gin.REQUIRED']
+      bads = (list(case['consts'][:2]) + sorted(n for n in consts if kinds.get(n) == 'enum')[:1]) or ['gin.REQUIRED']
     for b in bads:
-      try:
-        gin.constant(b, 'intruder')
-        ctx.check(False, 'bad-constant-accepted', 'gin.constant(%r) accepted' % b)
-      except ValueError:
-        ctx.count('oracle_evals')
-      ctx.check(len(gc._CONSTANTS) == nconst and all(table_snapshot()[n] is before[n] for n in before), 'rejected-constant-changed-table',
-                'rejected gin.constant(%r) changed the constant table' % b)
+      rejected('gin.constant(%r)' % b, lambda b=b: gin.constant(b, 'intruder'), 'bad-constant-accepted')
 
   table = {}            # macro table model
-  store = {}            # consumer param -> tree
+  store = {}            # (scope, consumer param) -> tree
   stepkinds = []
   pattern = []
   defined_in_step = {}
   used_before_def = set()
+  cleared = False
+  features = set()
+
+  def define(m, mv, where):
+    if m in table:
+      ctx.bucket('order:redefinition-later-step' if defined_in_step.get(m) != where else 'order:redefinition-same-step')
+    if mv[0] == 'macro' and len(models.resolve_suffix(consts, mv[1])) == 1:
+      mv = ['constr', models.resolve_suffix(consts, mv[1])[0]]   # `m = %NAME` where NAME is (by now) a constant
+    elif mv[0] == 'tree':
+      mv = ['tree', freeze(mv[1], consts)]
+      if has_node(mv[1], ('prov', 'constr', 'use', 'xuse')):
+        ctx.bucket('macro:container-holding-references')
+        features.add('tree')
+    table[m] = mv
+    defined_in_step[m] = where
+    pattern.append('D')
+    if '/' in m:
+      ctx.bucket('macro:scope-like-name')
+    ctx.bucket({'lit': 'macro:literal', 'prov': 'macro:evaluated-reference', 'macro': 'macro:nested-macro', 'constr': 'macro:literal',
+                'tree': 'macro:container'}[mv[0]])
+
+  def dup_probe(pick):
+    """A duplicate definition is an error wherever in the history it happens."""
+    names = sorted(consts)
+    if not names:
+      return
+    n = names[min(int(pick * len(names)), len(names) - 1)]
+    ctx.bucket('const:duplicate-mid-history')
+    if cleared:
+      ctx.bucket('const:duplicate-after-clear_config')
+    if n in late_names:
+      ctx.bucket('const:duplicate-of-late-constant')
+    rejected('duplicate gin.constant(%r) in the middle of a history' % n, lambda: gin.constant(n, 'intruder'), 'bad-constant-accepted')
+    if enum_classes:
+      cls, module = enum_classes[int(pick * 1000) % len(enum_classes)]
+      ctx.bucket('const:duplicate-enum-redecorated')
+      # any exception class: the statement only says "is an error"
+      rejected('second gin.constants_from_enum of %s (module=%r)' % (cls.__name__, module),
+               lambda: gin.constants_from_enum(cls, module=module), 'bad-constant-accepted', accept=Exception)
+
   for si, step in enumerate(case['steps']):
     if step.get('clear_before') and si:
       # clear_config() keeps the constants (the very same objects); macros and bindings are gone
@@ -280,23 +524,35 @@ def run_case(ctx, case):
       table.clear()
       store.clear()
       defined_in_step.clear()
+      cleared = True
       ctx.bucket('history:clear_config-keeps-constants')
-    for at, name in case.get('late_consts', []):
-      if at == si and name not in consts and not any(c.endswith('.' + name) for c in consts):
-        sentinels[name] = Sentinel(name)
+    for ent in case.get('late_consts', []):
+      at, name = ent[0], ent[1]
+      if at == si and fresh_name(name):
+        kinds[name] = ent[2] if len(ent) > 2 else 'sentinel'
+        sentinels[name] = make_const_value(name, kinds[name])
         gin.constant(name, sentinels[name])
         consts.add(name)
+        late_names.add(name)
         ctx.bucket('const:defined-between-parses')
+        if kinds[name] != 'sentinel':
+          ctx.bucket('const:%s-valued' % kinds[name])
+    if si:
+      define_enums(si)
+    for at, pick in case.get('dup_probes', []):
+      if at == si:
+        dup_probe(pick)
+    for at, m, v in case.get('api_defs', []):
+      if at == si:
+        # the macro's value bound through the Python API: the same binding as `m = v` in a file
+        gin.bind_parameter('%s/gin.macro.value' % m, copy.deepcopy(v))
+        define(m, ['lit', v], si - 0.5)
+        ctx.bucket('macro:bound-via-bind_parameter')
+        features.add('api')
     # ---- render the step
-    lines = []
-    for st in step['stmts']:
-      if st[0] == 'def':
-        lines.append('%s = %s' % (st[1], mval_text(st[2])))
-      else:
-        lines.append('c5cons.%s = %s' % (st[1], tree_text(st[2])))
     # would the step be rejected? (ambiguous constant spelling) -> it raises at that statement; the prefix is applied (C16's domain);
     # here the generator only uses resolvable or unknown spellings, ambiguity is probed separately below
-    amb = [t for st in step['stmts'] if st[0] == 'bind' for t in const_spellings_in(st[2]) if len(models.resolve_suffix(consts, t)) > 1]
+    amb = [t for st in step['stmts'] for t in percent_names(st) if len(models.resolve_suffix(consts, t)) > 1]
     if amb:
       ctx.bucket('const:ambiguous')
       snap_before = {k: dict(v) for k, v in gc._CONFIG.items()}
@@ -306,47 +562,48 @@ def run_case(ctx, case):
       except ValueError:
         ctx.count('oracle_evals')
       ctx.check({k: dict(v) for k, v in gc._CONFIG.items()} == snap_before, 'ambiguous-constant-bound-something', 'rejected ambiguous %%%s changed the store' % amb[0])
-      # rewrite ambiguous spellings to the full name so the step itself is valid
+      if '/' not in amb[0]:
+        # asking for the ambiguous abbreviation is an error as well (any exception class)
+        ctx.bucket('const:ambiguous-query_parameter')
+        try:
+          got = gin.query_parameter(amb[0])
+          ctx.check(False, 'ambiguous-constant-accepted', 'query_parameter(%r) answered %r although the abbreviation is ambiguous (constants %r)' % (amb[0], got, sorted(consts)))
+        except Exception:  # pylint: disable=broad-except
+          ctx.count('oracle_evals')
+      # rewrite ambiguous spellings to the full name (macro names that are ambiguous abbreviations: to the explicit form) so the step is valid
       for st in step['stmts']:
         if st[0] == 'bind':
           fix_ambiguous(st[2], consts)
-      lines = [('%s = %s' % (st[1], mval_text(st[2]))) if st[0] == 'def' else ('c5cons.%s = %s' % (st[1], tree_text(st[2]))) for st in step['stmts']]
-    ctx.bucket('step:' + step['kind'])
+        elif st[2][0] == 'tree':
+          fix_ambiguous(st[2][1], consts)
+        elif st[2][0] == 'macro' and len(models.resolve_suffix(consts, st[2][1])) > 1:
+          st[2] = ['tree', ['list', [['xuse', st[2][1]]]]]
+    lines = [stmt_text(st) for st in step['stmts']]
+    ctx.bucket('step:' + {'fab': 'files_and_bindings'}.get(step['kind'], step['kind']))
     stepkinds.append(step['kind'])
     sk = step.get('skip_unknown', False)
     if sk:
       ctx.bucket('step:skip_unknown-enabled')   # nothing here is unknown: macro definitions are never skippable
-    if step['kind'] == 'string':
-      gin.parse_config('\n'.join(lines) + '\n', skip_unknown=sk)
-    else:
-      fn = os.path.join(_S['tmp'], 'f%d.gin' % next(_S['fileno']))
-      if step['kind'] == 'include':
-        inc = os.path.join(_S['tmp'], 'i%d.gin' % next(_S['fileno']))
-        k = step['split']
-        open(inc, 'w').write('\n'.join(lines[:k]) + '\n')
-        open(fn, 'w').write("include '%s'\n" % inc + '\n'.join(lines[k:]) + '\n')
-      else:
-        open(fn, 'w').write('\n'.join(lines) + '\n')
-      gin.parse_config_file(fn, skip_unknown=sk)
+    parse_step(ctx, gin, step, lines, sk)
     # ---- model: statements in application order
-    for st in step['stmts']:
+    for sti, st in enumerate(step['stmts']):
       if st[0] == 'def':
-        if st[1] in table:
-          ctx.bucket('order:redefinition-later-step' if defined_in_step.get(st[1]) != si else 'order:redefinition-same-step')
-        mv = st[2]
-        if mv[0] == 'macro' and len(models.resolve_suffix(consts, mv[1])) == 1:
-          mv = ['constr', models.resolve_suffix(consts, mv[1])[0]]   # `m = %NAME` where NAME is (by now) a constant
-        table[st[1]] = mv
-        defined_in_step[st[1]] = si
-        pattern.append('D')
-        if '/' in st[1]:
-          ctx.bucket('macro:scope-like-name')
-        ctx.bucket({'lit': 'macro:literal', 'prov': 'macro:evaluated-reference', 'macro': 'macro:nested-macro', 'constr': 'macro:literal'}[mv[0]])
+        if len(st) > 3 and st[3] == 'explicit':
+          ctx.bucket('macro:explicit-binding-form')
+          features.add('explicit')
+        if step['kind'] == 'fab' and sti >= fab_cut(step) and any(s2[0] == 'def' and s2[1] == st[1] for s2 in step['stmts'][:fab_cut(step)]):
+          ctx.bucket('order:redefinition-files-then-bindings')
+        define(st[1], st[2], si)
       else:
-        store[st[1]] = freeze(st[2], consts)
-        us = uses(store[st[1]], [])
+        scope = st[3] if len(st) > 3 else ''
+        fr = freeze(st[2], consts)
+        store[(scope, st[1])] = fr
+        us = uses(fr, [])
         if uses(st[2], []) != us:
           ctx.bucket('const:name-became-constant-after-use-as-macro')
+        if has_node(fr, ('xuse',)):
+          ctx.bucket('macro:explicit-reference-form')
+          features.add('xuse')
         for u in us:
           if u not in table:
             used_before_def.add(u)
@@ -360,16 +617,24 @@ def run_case(ctx, case):
           r = models.resolve_suffix(consts, spelling)
           if len(r) == 1:
             ctx.bucket('const:full-name' if r[0] == spelling else 'const:unique-suffix')
+          elif not r and any(c.endswith(spelling) for c in consts):
+            # a character tail of a constant's name that is not a dotted suffix of it: not that constant -> a macro
+            ctx.bucket('const:char-tail-is-not-a-suffix')
+            features.add('tail')
     # ---- consumer call between steps
     if step['call'] or si == len(case['steps']) - 1:
       if si < len(case['steps']) - 1:
         ctx.bucket('call:between-steps')
-      do_call(ctx, gin, cons, table, store, consts, sentinels)
+      do_call(ctx, gin, cons, table, store, consts, sentinels, step.get('ambient'))
+
+  for at, pick in case.get('dup_probes', []):
+    if at >= len(case['steps']):
+      dup_probe(pick)
 
   # a spelling that matches no constant is a macro
   if case['ambiguous_probe']:
     gin.parse_config('c5cons.q = %NOT_A_CONSTANT\nNOT_A_CONSTANT = 77\n')
-    store['q'] = ['use', 'NOT_A_CONSTANT']
+    store[('', 'q')] = ['use', 'NOT_A_CONSTANT']
     table['NOT_A_CONSTANT'] = ['lit', 77]
     ctx.bucket('const:none-falls-to-macro')
     do_call(ctx, gin, cons, table, store, consts, sentinels)
@@ -381,8 +646,7 @@ def run_case(ctx, case):
       uses(t, referenced)
     # macros referenced from macro values that are themselves in the store
     for m, v in table.items():
-      if v[0] == 'macro':
-        referenced.append(v[1])
+      referenced.extend(macro_refs(v))
     unbound = sorted({m for m in referenced if m not in table})
     if any(any(m.startswith(t + '/') for t in table) for m in unbound):
       ctx.bucket('finalize:unbound-with-bound-prefix-macro')
@@ -419,10 +683,83 @@ def run_case(ctx, case):
               ('succeeded' if ok else 'raised', unbound, case['unevaluated']))
     if not ok:
       ctx.check(not gin.config_is_locked(), 'rejected-finalize-locked', 'finalize rejected the macros but left the config locked')
+    elif not expect_fail and case.get('post_finalize'):
+      after_finalize(ctx, gin, cons, case['post_finalize'], table, store, consts, sentinels, define)
+      features.add('post')
   ctx.fp(tuple(stepkinds), ''.join(pattern), tuple(sorted({v[0] for v in table.values()})),
-         tuple(sorted(len(c.split('.')) for c in case['consts'])), case['finalize'], case['bad_const'])
+         tuple(sorted(len(c.split('.')) for c in case['consts'])), case['finalize'], case['bad_const'], tuple(sorted(features)),
+         tuple(sorted(set(kinds.values()))))
   ctx.sample({'constants': case['consts'], 'steps': [{'kind': s['kind'], 'stmts': s['stmts']} for s in case['steps']][:3]}, cap=3)
   gin.clear_config(clear_constants=True)
+
+
+def fab_cut(step):
+  """Index of the first statement passed as a binding (not in a file) by a parse_config_files_and_bindings step."""
+  return (step.get('cuts') or [0, step['split']])[1]
+
+
+def write_file(lines):
+  fn = os.path.join(_S['tmp'], 'f%d.gin' % next(_S['fileno']))
+  with open(fn, 'w') as f:
+    f.write(''.join(l + '\n' for l in lines))
+  return fn
+
+
+def parse_step(ctx, gin, step, lines, sk):
+  """Hands the statements to gin in the step's way; in every way they are applied in the order of `lines`."""
+  kind = step['kind']
+  if kind == 'string':
+    gin.parse_config('\n'.join(lines) + '\n', skip_unknown=sk)
+  elif kind == 'list':
+    # a list (or tuple) of individual binding strings
+    gin.parse_config(tuple(lines) if step.get('as_tuple') else list(lines), skip_unknown=sk)
+  elif kind == 'fab':
+    # files first, then the extra bindings: a macro re-defined in the bindings wins
+    cuts = step.get('cuts') or [0, step['split']]
+    c0, c1 = (cuts[0], cuts[1]) if step.get('nested') else (cuts[1], cuts[1])
+    files = [write_file(lines[:c0]), write_file(lines[c0:c1])] if step.get('nested') else [write_file(lines[:c1])]
+    extra = lines[c1:]
+    gin.parse_config_files_and_bindings(files, tuple(extra) if step.get('as_tuple') else extra, finalize_config=False, skip_unknown=sk)
+  elif kind == 'include':
+    k = step['split']
+    c0, c1, c2, c3 = step.get('cuts') or [0, 0, k, k]
+    if step.get('nested') and 'cuts' in step:
+      inc2 = write_file(lines[c1:c2])
+      inc1 = write_file(lines[c0:c1] + ["include '%s'" % inc2] + lines[c2:c3])
+      ctx.bucket('step:nested-include')
+    else:
+      inc1 = write_file(lines[c0:c3])
+    if c0:
+      ctx.bucket('step:include-after-statements')
+    gin.parse_config_file(write_file(lines[:c0] + ["include '%s'" % inc1] + lines[c3:]), skip_unknown=sk)
+  else:
+    gin.parse_config_file(write_file(lines), skip_unknown=sk)
+
+
+def after_finalize(ctx, gin, cons, post, table, store, consts, sentinels, define):
+  """Late binding survives finalize(): a macro re-bound afterwards (config unlocked for the purpose) changes what its uses deliver."""
+  direct = [t[1] for t in store.values() if t[0] in ('use', 'xuse') and t[1] in table]
+  anywhere = [m for t in store.values() for m in uses(t, []) if m in table]
+  if direct or anywhere:
+    m = sorted(direct or anywhere)[0]
+  else:
+    m = 'c5_post'
+    with gin.unlock_config():
+      gin.parse_config("c5_post = 'before'\nc5cons.p = [%c5_post]\n")
+    define(m, ['lit', 'before'], 'post')
+    store[('', 'p')] = ['list', [['use', m]]]
+  do_call(ctx, gin, cons, table, store, consts, sentinels)       # finalize itself changed nothing
+  v, form = post['v'], post.get('form', 'short')
+  with gin.unlock_config():
+    if form == 'api':
+      gin.bind_parameter('%s/gin.macro.value' % m, copy.deepcopy(v[1]))
+    else:
+      gin.parse_config(stmt_text(['def', m, v, form]) + '\n')
+  define(m, v, 'post')
+  ctx.bucket('finalize:macro-redefined-after-finalize')
+  if has_cycle(table):
+    return
+  do_call(ctx, gin, cons, table, store, consts, sentinels)
 
 
 def const_spellings_in(t, out=None):
@@ -438,7 +775,36 @@ def const_spellings_in(t, out=None):
   return out
 
 
+def percent_names(st):
+  """Every name written as %name in a statement (constant spellings and macro names alike: the parser cannot tell them apart)."""
+  if st[0] == 'bind':
+    t = st[2]
+  elif st[2][0] == 'tree':
+    t = st[2][1]
+  elif st[2][0] == 'macro':
+    return [st[2][1]]
+  else:
+    return []
+  return const_spellings_in(t) + [m for m in uses_of_kind(t, 'use', [])]
+
+
+def uses_of_kind(t, kind, out):
+  if t[0] == kind:
+    out.append(t[1])
+  elif t[0] == 'list':
+    for x in t[1]:
+      uses_of_kind(x, kind, out)
+  elif t[0] == 'dict':
+    for _, x in t[1]:
+      uses_of_kind(x, kind, out)
+  return out
+
+
 def fix_ambiguous(t, consts):
+  if t[0] == 'use':
+    if len(models.resolve_suffix(consts, t[1])) > 1:
+      t[0] = 'xuse'      # `%B` cannot name the macro B while B abbreviates two constants; `@B/gin.macro()` can
+    return
   if t[0] == 'const':
     r = models.resolve_suffix(consts, t[1])
     if len(r) > 1:
@@ -451,11 +817,18 @@ def fix_ambiguous(t, consts):
       fix_ambiguous(x, consts)
 
 
-def do_call(ctx, gin, cons, table, store, consts, sentinels):
+def do_call(ctx, gin, cons, table, store, consts, sentinels, ambient=None):
   if has_cycle(table):
     return
+  eff, scoped = effective_store(store, ambient)
+
+  def call():
+    if ambient:
+      with gin.config_scope(ambient):
+        return cons.conf()
+    return cons.conf()
   exp, calls, unbound = {}, [], False
-  for prm, t in store.items():
+  for prm, t in eff.items():
     try:
       exp[prm] = model_value(t, table, consts, sentinels, calls)
     except KeyError:
@@ -463,14 +836,14 @@ def do_call(ctx, gin, cons, table, store, consts, sentinels):
     except Grey:
       ctx.count('grey_unbound_macro_with_bound_prefix')
       try:
-        cons.conf()
+        call()
       except Exception:  # pylint: disable=broad-except
         pass
       return
   mark = probes.RECORDER.mark()
   exc = None
   try:
-    cons.conf()
+    call()
   except Exception as e:  # pylint: disable=broad-except
     exc = e
   ctx.count('consumer_calls')
@@ -482,32 +855,34 @@ def do_call(ctx, gin, cons, table, store, consts, sentinels):
     return
   if not ctx.check(exc is None, 'unexpected-exception', 'consumer call raised %s: %s' % (type(exc).__name__, str(exc)[:300])):
     return
+  if ambient:
+    ctx.bucket('call:inside-config_scope')
+    if scoped:
+      ctx.bucket('call:scoped-binding-effective')
   got = [r for r in recs if r.pid == cons.pid][0].received
   for prm in exp:
-    g = shape(got[prm], sentinels)
-    ctx.check(g == exp[prm], 'macro-value-differs-from-table', 'parameter %s received %r, model (latest definitions) %r' % (prm, g, exp[prm]))
+    problems, stats = [], []
+    compare(exp[prm], got[prm], sentinels, problems, stats)
+    value_problems = [m for k, m in problems if k == 'macro-value-differs-from-table']
+    ident_problems = [m for k, m in problems if k == 'constant-not-identical']
+    ctx.check(not value_problems, 'macro-value-differs-from-table', 'parameter %s%s received %r, model (latest definitions) %r: %s' %
+              (prm, ' (inside config_scope(%r))' % ambient if ambient else '', shape(got[prm], sentinels), exp[prm], '; '.join(value_problems[:2])))
     # identity of constants
-    flat = []
-    flatten(got[prm], flat)
-    for o in flat:
-      if isinstance(o, Sentinel):
-        ctx.count('constant_lookups')
-        if o is not got[prm]:
-          ctx.bucket('const:identity-in-container')
-        ctx.check(sentinels.get(o.name) is o, 'constant-not-identical', 'constant %s delivered as a different object' % o.name)
+    for name, top in stats:
+      ctx.count('constant_lookups')
+      if not top:
+        ctx.bucket('const:identity-in-container')
+      if isinstance(sentinels[name], enum.Enum):
+        ctx.bucket('const:enum-member-delivered')
+      elif type(sentinels[name]) in (list, dict, set):
+        ctx.bucket('const:container-valued-delivered')
+    if stats:
+      ctx.check(not ident_problems, 'constant-not-identical', 'parameter %s: %s' % (prm, '; '.join(ident_problems[:2])))
   pc = sorted((_S['by_pid'][r.pid], r.scope) for r in recs if r.pid in _S['by_pid'])
+  if ambient:
+    # how the caller's active scope combines with a reference's own scope is not this property's business: compare the runs only
+    pc, calls = [(n, None) for n, _ in pc], [(n, None) for n, _ in calls]
   ctx.check(pc == sorted(calls), 'provider-runs-per-macro-use-differ', 'providers ran %r, model (one per %%macro occurrence) %r' % (pc, sorted(calls)))
-
-
-def flatten(v, out):
-  if type(v) in (list, tuple):
-    for x in v:
-      flatten(x, out)
-  elif type(v) is dict:
-    for x in v.values():
-      flatten(x, out)
-  else:
-    out.append(v)
 
 
 LEVEL_TEXT = ('Runtime monitor with a macro-table / constant-suffix reference model over generated multi-step parse histories (strings, files, includes) '
